@@ -350,9 +350,14 @@ func (p *Prog) wholeIndexCompare() []Ob {
 				}
 				return false, false
 			}
+			nCmp := 0
+			var readCall *ssa.Call
 			for _, b := range cl.fn.Blocks {
 				for _, ins := range b.Instrs {
 					c, ok := ins.(*ssa.Call)
+					if ok && calleeName(c.Common()) == pkgIndex+".Read" {
+						readCall = c
+					}
 					if !ok || !strings.HasPrefix(calleeName(c.Common()), "slices.Equal") {
 						continue
 					}
@@ -361,6 +366,7 @@ func (p *Prog) wholeIndexCompare() []Ob {
 						if !rel {
 							continue
 						}
+						nCmp++
 						ob := Ob{Rule: "R11", Inst: "L7:" + funcLabel(cl.fn) + ":whole-index-compare", Props: []string{"C02", "C05", "C07", "C11"}, Pos: p.at(c), Func: funcLabel(cl.fn), Nontrivial: true}
 						if whole {
 							ob.Status, ob.Msg = Discharged, "the stored index is compared with the whole index derived from the log"
@@ -370,6 +376,42 @@ func (p *Prog) wholeIndexCompare() []Ob {
 						obs = append(obs, ob)
 					}
 				}
+			}
+			// a function that reads the stored index next to deriving one, but compares them by hand:
+			// the lengths must be compared too (a stored index that is a proper prefix of the derived
+			// one - a crash between the record and its index item - is otherwise accepted)
+			if nCmp == 0 && readCall != nil {
+				ob := Ob{Rule: "R11", Inst: "L7:" + funcLabel(cl.fn) + ":whole-index-compare", Props: []string{"C02", "C05", "C07", "C11"}, Pos: p.at(readCall), Func: funcLabel(cl.fn), Nontrivial: true}
+				lenOf := func(v ssa.Value) ssa.Value {
+					if c, ok := stripConv(v).(*ssa.Call); ok && isBuiltinCall(c.Common(), "len") && len(c.Call.Args) == 1 {
+						return c.Call.Args[0]
+					}
+					return nil
+				}
+				lens := false
+				for _, b := range cl.fn.Blocks {
+					for _, ins := range b.Instrs {
+						bo, ok := ins.(*ssa.BinOp)
+						if !ok || (bo.Op != token.EQL && bo.Op != token.NEQ) {
+							continue
+						}
+						x, y := lenOf(bo.X), lenOf(bo.Y)
+						if x == nil || y == nil {
+							continue
+						}
+						rx, wx := derived(x)
+						ry, wy := derived(y)
+						if (rx && wx) != (ry && wy) && (rx || ry) {
+							lens = true
+						}
+					}
+				}
+				if lens {
+					ob.Status, ob.Msg = Discharged, "the stored index is compared by hand with the derived one, lengths included"
+				} else {
+					ob.Status, ob.Msg = Violated, "the stored index is read next to the index derived from the log but never compared with it as a whole (neither slices.Equal nor a comparison of the two lengths): an index that lags the log by whole items is accepted, and the next offset is taken from it"
+				}
+				obs = append(obs, ob)
 			}
 		}
 	}
@@ -5692,6 +5734,478 @@ func (p *Prog) recoverOnOpen() []Ob {
 		ob.Status, ob.Msg, ob.Path = Violated, "with Options.Recover set, Open can open the head for writing without having recovered it: a torn tail stays in the log, later appends land behind it and are lost with it at the next real recovery", bad
 	} else {
 		ob.Status, ob.Msg = Discharged, fmt.Sprintf("with Recover set every path of Open to the %d construction(s) of a head writer over a found segment passes Segment.Recover", len(ctors))
+	}
+	return []Ob{ob}
+}
+
+// ---------------------------------------------------------------------------
+// R35c AN-UNCLASSIFIED-FAILURE-IS-NOT-AN-ANSWER (C14, C10, C09, C04): where a method of the log or of a
+// segment reader knows that a call failed (it stands behind the `err != nil` edge of that call's error)
+// it returns success only where it also identified the failure as one of the outcome sentinels. A
+// failure it did not classify - a damaged record, an I/O error - is never turned into an answer.
+func (p *Prog) unclassifiedFailureIsNotAnAnswer() []Ob {
+	r := p.R
+	ea := p.ErrAtomsCached()
+	var obs []Ob
+	n := 0
+	for _, fn := range p.Funcs {
+		if !srcFunc(fn) || fn.Parent() != nil || (recvNamed(fn) != r.Impl && recvNamed(fn) != r.SegReader) {
+			continue
+		}
+		if errResultIndex(fn) < 0 {
+			continue
+		}
+		var bad []string
+		judged := 0
+		for _, hb := range fn.Blocks {
+			iff, ok := terminator(hb).(*ssa.If)
+			if !ok {
+				continue
+			}
+			bo, ok := iff.Cond.(*ssa.BinOp)
+			if !ok || (bo.Op != token.EQL && bo.Op != token.NEQ) {
+				continue
+			}
+			var e ssa.Value
+			switch {
+			case isNilConst(bo.Y):
+				e = bo.X
+			case isNilConst(bo.X):
+				e = bo.Y
+			}
+			if e == nil || !isErrType(e.Type()) {
+				continue
+			}
+			ex, ok := e.(*ssa.Extract)
+			if !ok {
+				continue
+			}
+			call, ok := ex.Tuple.(*ssa.Call)
+			if !ok {
+				continue
+			}
+			// only calls that read: methods of segment readers and index objects
+			g := call.Common().StaticCallee()
+			if g == nil && !call.Common().IsInvoke() {
+				continue
+			}
+			if g != nil && recvNamed(g) != r.SegReader && recvNamed(g) != r.ReaderIndex && recvNamed(g) != r.HeadIndex {
+				continue
+			}
+			nonNil := 0
+			if bo.Op == token.EQL {
+				nonNil = 1
+			}
+			for _, rt := range returnsOf(fn) {
+				if ea.isFailureReturn(fn, rt) || !edgeDominates(hb, nonNil, rt.Block()) {
+					continue
+				}
+				judged++
+				classified := false
+				for _, cb := range fn.Blocks {
+					ci, ok := terminator(cb).(*ssa.If)
+					if !ok {
+						continue
+					}
+					uses := false
+					switch c := stripNot(ci.Cond).(type) {
+					case *ssa.BinOp:
+						uses = c.X == e || c.Y == e
+					case *ssa.Call:
+						uses = len(c.Call.Args) > 0 && c.Call.Args[0] == e
+					}
+					if !uses {
+						continue
+					}
+					for _, t := range sentinelTests(ci.Cond) {
+						if edgeDominates(cb, t.edge, rt.Block()) {
+							classified = true
+						}
+					}
+				}
+				if !classified {
+					bad = append(bad, fmt.Sprintf("%s: success is returned where %s is known to have failed with an error that was not identified as an expected outcome", p.at(rt), calleeName(call.Common())))
+				}
+			}
+		}
+		if judged == 0 && len(bad) == 0 {
+			continue
+		}
+		n++
+		ob := Ob{Rule: "R35", Inst: "c:unclassified-failure-is-not-an-answer:" + funcLabel(fn), Props: []string{"C14", "C10", "C09", "C04"}, Pos: p.posStr(fn.Pos()), Func: funcLabel(fn), Nontrivial: true}
+		if len(bad) > 0 {
+			ob.Status, ob.Msg, ob.Path = Violated, "a failed read is answered as if it had succeeded: a damaged record (or an I/O error) that holds the real answer is passed over and another message is returned without an error", uniqSorted(bad)
+		} else {
+			ob.Status, ob.Msg = Discharged, fmt.Sprintf("%d success return(s) behind a failed read, each behind the identification of an outcome sentinel", judged)
+		}
+		obs = append(obs, ob)
+	}
+	if n == 0 {
+		obs = append(obs, Ob{Rule: "R35", Inst: "c:unclassified-failure-is-not-an-answer", Props: []string{"C14", "C10", "C09", "C04"}, Pos: "-", Status: Discharged, Nontrivial: true, Msg: "no method returns success behind the failure edge of a read"})
+	}
+	return obs
+}
+
+func stripNot(v ssa.Value) ssa.Value {
+	for {
+		u, ok := v.(*ssa.UnOp)
+		if !ok || u.Op != token.NOT {
+			return v
+		}
+		v = u.X
+	}
+}
+
+// ---------------------------------------------------------------------------
+// R10j WHOLE-HEADER (C14): a function of the format packages that reads fixed positions of a []byte
+// parameter without looking at its length (the file-header parsers) is only ever handed a whole
+// fixed-size array (`h[:]`): a short read must fail before the parser, not index out of range in it.
+// R10k NO-UNCHECKED-MAPPED-ACCESS (C14): the mapped file of a sealed segment is read through ReadAt
+// (which reports a position past the end as an error), never through an accessor that indexes the
+// mapping directly.
+func (p *Prog) wholeHeaderAndMappedAccess() []Ob {
+	var obs []Ob
+	// parsers: []byte first parameter, read, never measured
+	parsers := map[*ssa.Function]bool{}
+	for _, fn := range p.Funcs {
+		if !srcFunc(fn) || fn.Parent() != nil || len(fn.Params) == 0 || (funcPkgPath(fn) != pkgMessage && funcPkgPath(fn) != pkgIndex) {
+			continue
+		}
+		if fn.Signature.Recv() != nil || token.IsExported(fn.Name()) {
+			continue
+		}
+		pr := fn.Params[0]
+		sl, ok := pr.Type().Underlying().(*types.Slice)
+		if !ok {
+			continue
+		}
+		if bt, ok := sl.Elem().Underlying().(*types.Basic); !ok || bt.Kind() != types.Uint8 {
+			continue
+		}
+		reads, measured := false, false
+		for _, ref := range *pr.Referrers() {
+			switch x := ref.(type) {
+			case *ssa.IndexAddr, *ssa.Slice:
+				reads = true
+			case *ssa.Call:
+				if isBuiltinCall(x.Common(), "len") {
+					measured = true
+				} else {
+					reads = true
+				}
+			}
+		}
+		if reads && !measured {
+			parsers[fn] = true
+		}
+	}
+	n := 0
+	var bad []string
+	for _, fn := range p.Funcs {
+		if !srcFunc(fn) {
+			continue
+		}
+		for _, b := range fn.Blocks {
+			for _, ins := range b.Instrs {
+				c, ok := ins.(*ssa.Call)
+				if !ok || !parsers[c.Common().StaticCallee()] || len(c.Call.Args) == 0 {
+					continue
+				}
+				n++
+				whole := false
+				if sl, ok := c.Call.Args[0].(*ssa.Slice); ok && sl.Low == nil && sl.High == nil && sl.Max == nil {
+					if pt, ok := sl.X.Type().Underlying().(*types.Pointer); ok {
+						if _, isArr := pt.Elem().Underlying().(*types.Array); isArr {
+							whole = true
+						}
+					}
+				}
+				if !whole {
+					bad = append(bad, fmt.Sprintf("%s: %s is handed %s, not a whole fixed-size array", p.at(c), funcLabel(c.Common().StaticCallee()), c.Call.Args[0].String()))
+				}
+			}
+		}
+	}
+	ob := Ob{Rule: "R10", Inst: "j:whole-header", Props: []string{"C14"}, Pos: "-", Nontrivial: true}
+	switch {
+	case len(parsers) == 0:
+		ob.Status, ob.Msg = Discharged, "no function of the format packages reads a []byte parameter without measuring it"
+	case len(bad) > 0:
+		ob.Pos = strings.SplitN(bad[0], ": ", 2)[0]
+		ob.Status, ob.Msg, ob.Path = Violated, "a header parser that indexes fixed positions without a length check can be handed a short slice: a file that ends inside its header makes Open panic instead of failing", uniqSorted(bad)
+	default:
+		ob.Status, ob.Msg = Discharged, fmt.Sprintf("%d call(s) of %d unmeasured header parser(s), each with a whole fixed-size array", n, len(parsers))
+	}
+	obs = append(obs, ob)
+
+	ob2 := Ob{Rule: "R10", Inst: "k:no-unchecked-mapped-access", Props: []string{"C14"}, Pos: "-", Nontrivial: true}
+	var bad2 []string
+	reads := 0
+	for _, fn := range p.Funcs {
+		if !srcFunc(fn) {
+			continue
+		}
+		for _, b := range fn.Blocks {
+			for _, ins := range b.Instrs {
+				c, ok := ins.(*ssa.Call)
+				if !ok {
+					continue
+				}
+				nm := calleeName(c.Common())
+				if !strings.Contains(nm, "/mmap.ReaderAt)") {
+					continue
+				}
+				switch {
+				case strings.HasSuffix(nm, ").ReadAt"):
+					reads++
+				case strings.HasSuffix(nm, ").At"):
+					bad2 = append(bad2, fmt.Sprintf("%s: %s indexes the mapping directly (no bounds check: a position past the end of the file panics)", p.at(c), funcLabel(fn)))
+				}
+			}
+		}
+	}
+	switch {
+	case len(bad2) > 0:
+		ob2.Pos = strings.SplitN(bad2[0], ": ", 2)[0]
+		ob2.Status, ob2.Msg, ob2.Path = Violated, "a damaged size field or a truncated sealed segment makes a read panic instead of failing with ErrCorrupted", uniqSorted(bad2)
+	case reads == 0:
+		ob2.Status, ob2.Msg = Undecided, "no read of a mapped segment file found (the mapped reader is no longer x/exp/mmap's ReaderAt)"
+	default:
+		ob2.Status, ob2.Msg = Discharged, fmt.Sprintf("%d read(s) of mapped files, all through ReadAt", reads)
+	}
+	obs = append(obs, ob2)
+	return obs
+}
+
+// ---------------------------------------------------------------------------
+// R15c NOTHING-BEFORE-THE-LOCK (C19): in Open every call that can change a file of the directory runs
+// behind the acquisition of the directory lock: an Open that is going to fail with "already locked"
+// has not touched the files of the handle that holds the lock.
+func (p *Prog) nothingBeforeTheLock() []Ob {
+	open := p.R.Open
+	ob := Ob{Rule: "R15", Inst: "c:nothing-before-the-lock", Props: []string{"C19"}, Pos: "-", Func: funcLabel(open), Nontrivial: true}
+	if open == nil {
+		ob.Status, ob.Msg = Undecided, "Open not found"
+		return []Ob{ob}
+	}
+	var locks []*ssa.Call
+	lockBlocks := map[*ssa.BasicBlock]bool{}
+	for _, b := range open.Blocks {
+		for _, ins := range b.Instrs {
+			if c, ok := ins.(*ssa.Call); ok {
+				switch flockOp(c.Common()) {
+				case "TryLock", "TryRLock", "Lock", "RLock", "TryLockContext", "TryRLockContext":
+					locks = append(locks, c)
+					lockBlocks[b] = true
+				}
+			}
+		}
+	}
+	// blocks reachable from the entry without passing an acquisition
+	unlocked := map[*ssa.BasicBlock]bool{}
+	{
+		work := []*ssa.BasicBlock{open.Blocks[0]}
+		for len(work) > 0 {
+			x := work[len(work)-1]
+			work = work[:len(work)-1]
+			if unlocked[x] {
+				continue
+			}
+			unlocked[x] = true
+			if lockBlocks[x] {
+				continue // judged instruction by instruction below
+			}
+			work = append(work, x.Succs...)
+		}
+	}
+	if len(locks) == 0 {
+		ob.Status, ob.Msg = Undecided, "Open does not acquire a directory lock"
+		return []Ob{ob}
+	}
+	ob.Pos = p.at(locks[0])
+	n := 0
+	var bad []string
+	for _, b := range open.Blocks {
+		for _, ins := range b.Instrs {
+			c, ok := ins.(*ssa.Call)
+			if !ok {
+				continue
+			}
+			what := ""
+			if is, w := isMutatorCall(c.Common()); is {
+				what = w
+			} else if g := c.Common().StaticCallee(); g != nil && inModule(g) && g.Blocks != nil {
+				if sites := p.reachMutators(g, nil); len(sites) > 0 {
+					what = sites[0].what + " via " + strings.Join(sites[0].chain, " → ")
+				}
+			}
+			if what == "" || strings.HasPrefix(what, "os.MkdirAll") || strings.HasPrefix(what, "os.Mkdir") {
+				continue
+			}
+			n++
+			locked := !unlocked[b]
+			if lockBlocks[b] {
+				for _, l := range locks {
+					if l.Block() == b && instrDominates(l, c) {
+						locked = true
+					}
+				}
+			}
+			if !locked {
+				bad = append(bad, fmt.Sprintf("%s: %s can run before the directory lock is taken", p.at(c), what))
+			}
+		}
+	}
+	if len(bad) > 0 {
+		ob.Status, ob.Msg, ob.Path = Violated, "Open changes files of the directory before it holds the lock: a second Open that ends in 'already locked' has by then rewritten files under the handle that owns them", uniqSorted(bad)
+	} else {
+		ob.Status, ob.Msg = Discharged, fmt.Sprintf("%d call(s) of Open that can change a file, each dominated by the acquisition of the directory lock", n)
+	}
+	return []Ob{ob}
+}
+
+// R13c EVERY-FOUND-SEGMENT-IS-OPENED (C19, C02): the list of segments Find returned is what Open builds
+// its readers from: it is ranged over whole (read-only) or as all-but-the-last next to a writer over
+// the last (read-write); it is never cut on a condition.
+func (p *Prog) everyFoundSegmentIsOpened() []Ob {
+	r := p.R
+	open := r.Open
+	ob := Ob{Rule: "R13", Inst: "c:every-found-segment-is-opened", Props: []string{"C19", "C02"}, Pos: "-", Func: funcLabel(open), Nontrivial: true}
+	if open == nil {
+		ob.Status, ob.Msg = Undecided, "Open not found"
+		return []Ob{ob}
+	}
+	var found ssa.Value
+	for _, b := range open.Blocks {
+		for _, ins := range b.Instrs {
+			ex, ok := ins.(*ssa.Extract)
+			if !ok || ex.Index != 0 {
+				continue
+			}
+			sl, ok := ex.Type().Underlying().(*types.Slice)
+			if !ok || namedOf(sl.Elem()) != r.Segment {
+				continue
+			}
+			if _, isCall := ex.Tuple.(*ssa.Call); isCall {
+				found = ex
+			}
+		}
+	}
+	if found == nil {
+		ob.Status, ob.Msg = Undecided, "Open does not obtain a list of segments from a call"
+		return []Ob{ob}
+	}
+	if c, ok := found.(*ssa.Extract).Tuple.(*ssa.Call); ok {
+		ob.Pos = p.at(c)
+	}
+	isLastIndex := func(v ssa.Value) bool {
+		bo, ok := stripConv(v).(*ssa.BinOp)
+		if !ok || bo.Op != token.SUB {
+			return false
+		}
+		k, isK := constInt(bo.Y)
+		c, isC := bo.X.(*ssa.Call)
+		return isK && k == 1 && isC && isBuiltinCall(c.Common(), "len") && len(c.Call.Args) == 1 && c.Call.Args[0] == found
+	}
+	n := 0
+	var bad []string
+	for _, b := range open.Blocks {
+		for _, ins := range b.Instrs {
+			switch x := ins.(type) {
+			case *ssa.Phi:
+				if sl, ok := x.Type().Underlying().(*types.Slice); ok && namedOf(sl.Elem()) == r.Segment {
+					for _, e := range x.Edges {
+						if e == found {
+							bad = append(bad, p.at(x)+": what Open goes on with is either the list that was found or something else, depending on a condition")
+						}
+					}
+				}
+			case *ssa.Slice:
+				if x.X != found {
+					continue
+				}
+				n++
+				if !(x.Low == nil && x.High != nil && isLastIndex(x.High)) {
+					bad = append(bad, p.at(x)+": the list of found segments is cut other than into all-but-the-last")
+				}
+			}
+		}
+	}
+	if len(bad) > 0 {
+		ob.Status, ob.Msg, ob.Path = Violated, "Open can leave out a segment that is in the directory: an empty head (whose name is the only record of the next offset) dropped by a read-only handle makes it answer differently from a read-write one", uniqSorted(bad)
+	} else {
+		ob.Status, ob.Msg = Discharged, fmt.Sprintf("the list Find returned is used whole, apart from %d all-but-the-last slice(s)", n)
+	}
+	return []Ob{ob}
+}
+
+// ---------------------------------------------------------------------------
+// R18f DELETE-ANSWERS-NOTHING-ONLY-FOR-NOTHING (C12): Log.Delete itself answers "nothing deleted" with
+// success only where the caller's set was tested empty; everything else is what the worker behind the
+// delete lock returns (which is where relative offsets are rejected).
+func (p *Prog) deleteAnswersNothingOnlyForNothing() []Ob {
+	r := p.R
+	m := r.ImplMethods["Delete"]
+	ob := Ob{Rule: "R18", Inst: "f:delete-answers-nothing-only-for-nothing", Props: []string{"C12", "C04"}, Pos: "-", Func: funcLabel(m), Nontrivial: true}
+	if m == nil || m.Blocks == nil || len(m.Params) < 2 {
+		ob.Status, ob.Msg = Undecided, "Log.Delete not found"
+		return []Ob{ob}
+	}
+	ob.Pos = p.posStr(m.Pos())
+	ea := p.ErrAtomsCached()
+	set := m.Params[1]
+	emptyEdge := func(b *ssa.BasicBlock) bool {
+		for _, hb := range m.Blocks {
+			iff, ok := terminator(hb).(*ssa.If)
+			if !ok {
+				continue
+			}
+			x, y, op, ok := relCond(iff.Cond)
+			if !ok {
+				continue
+			}
+			lc, isL := x.(*ssa.Call)
+			k, isK := constInt(y)
+			if !isL || !isK || k != 0 || !isBuiltinCall(lc.Common(), "len") || canon(lc.Call.Args[0]) != ssa.Value(set) {
+				continue
+			}
+			e := -1
+			switch op {
+			case token.EQL, token.LEQ:
+				e = 0
+			case token.NEQ, token.GTR:
+				e = 1
+			}
+			if e >= 0 && edgeDominates(hb, e, b) {
+				return true
+			}
+		}
+		return false
+	}
+	n := 0
+	var bad []string
+	ei := errResultIndex(m)
+	for _, rt := range returnsOf(m) {
+		if ea.isFailureReturn(m, rt) {
+			continue
+		}
+		// what the worker returned is handed on
+		if v := returnOperand(rt, ei); v != nil {
+			if ex, ok := v.(*ssa.Extract); ok {
+				if c, ok := ex.Tuple.(*ssa.Call); ok && c.Common().StaticCallee() != nil && recvNamed(c.Common().StaticCallee()) == r.Impl {
+					continue
+				}
+			}
+		}
+		n++
+		if !emptyEdge(rt.Block()) {
+			bad = append(bad, p.at(rt)+": success with nothing deleted is answered although the caller's set was not tested empty")
+		}
+	}
+	if len(bad) > 0 {
+		ob.Status, ob.Msg, ob.Path = Violated, "Log.Delete has an answer of its own for a non-empty set: the offsets in it are neither validated (a relative offset must be refused) nor deleted", bad
+	} else {
+		ob.Status, ob.Msg = Discharged, fmt.Sprintf("%d success return(s) of Log.Delete's own, each behind len(offsets) == 0", n)
 	}
 	return []Ob{ob}
 }
